@@ -8,7 +8,7 @@ CONSTANTS
   PruneBatch = 99
   L2PerPrune = 1
   MinAge = TRUE
-  MaxSteps = 6
+  MaxSteps = 7
   EnableRevert = TRUE
   EnableInterrupts = TRUE
   FixPruneAtomicFloor = TRUE
